@@ -348,7 +348,8 @@ func jobDeadline(r *mc.Run, quick, thorough time.Duration) int64 {
 			b = d
 		}
 	}
-	return time.Now().Add(b).UnixMilli()
+	// workers stop a little before the parent's soft deadline so that in-flight probes finish inside it
+	return time.Now().Add(b * 85 / 100).UnixMilli()
 }
 
 type Result struct {
